@@ -20,7 +20,8 @@ type Obj struct {
 	epoch uint64
 	id    uint32
 	HB    uint64
-	vc    vclock
+	vc    vclock // published by releasing operations (for a read-write mutex: by Unlock)
+	vcR   vclock // read-write mutex: published by RUnlock, acquired by Lock only
 }
 
 // Touch (re)assigns the per-run identity of an object. It reports whether the
@@ -55,6 +56,7 @@ type Op struct {
 	More    []*Obj        // further objects the operation reads (select)
 	Enabled func() bool   // nil = always enabled
 	Release bool          // the operation's effect is already applied when Point is called (Unlock): publish the clock before yielding
+	VC      VCMode        // what the operation means for the race monitor's vector clocks (default: acquire and release)
 	Quiesce bool          // enabled only when nothing else can run and no deadline is armed
 	Horizon time.Duration // Quiesce: deadlines further away than this do not count (0 = drain all)
 }
@@ -385,7 +387,7 @@ func (r *Run) Point(op Op) {
 	r.parkSeq++
 	t.parkSeq = r.parkSeq
 	if r.cfg.Race && op.Release && op.Obj != nil {
-		r.syncVC(t, op.Obj)
+		r.releaseVC(t, op.Obj, op.VC)
 	}
 	r.reschedule(t)
 	t.pending = nil
@@ -405,7 +407,7 @@ func (r *Run) Point(op Op) {
 			oid = op.Obj.id
 		}
 		if r.cfg.Race {
-			r.syncVC(t, append([]*Obj{op.Obj}, op.More...)...)
+			r.pointVC(t, &op)
 		}
 	} else {
 		t.hb = mix(t.hb, hashStr(op.Kind))
@@ -588,7 +590,17 @@ func (r *Run) TouchHB(kind string, objs ...*Obj) {
 		o.HB = h
 	}
 	t.hb = h
-	r.syncVC(t, objs...)
+	if r.cfg.Race {
+		// the timer queue is shared state for the happens-before hashes, but arming or stopping a timer does not
+		// synchronise with other users of the clock
+		var sync []*Obj
+		for _, o := range objs {
+			if o != &r.clockObj {
+				sync = append(sync, o)
+			}
+		}
+		r.syncVC(t, sync...)
+	}
 }
 
 // Choose asks the explorer for a data choice in [0,n). fault marks non-default
@@ -768,19 +780,19 @@ func (r *Run) fireClock() {
 		e.obj.HB = h
 	}
 	r.clockT.hb = h
-	if r.cfg.Race {
-		objs := []*Obj{&r.clockObj}
-		for _, e := range due {
-			objs = append(objs, e.obj)
-		}
-		r.syncVC(r.clockT, objs...)
-	}
 	if r.cfg.Trace {
 		r.res.Trace = append(r.res.Trace, TraceEv{T: "clock", Op: "fire", Note: fmt.Sprintf("now=+%v n=%d", r.now.Sub(baseTime), len(due))})
 	}
 	for _, e := range due {
 		if e.active {
 			e.active = false
+			if r.cfg.Race {
+				// a firing is ordered after the arming of its own timer only: the clock is not a thread through
+				// which unrelated timers synchronise
+				r.clockT.vc = append(vclock{}, e.obj.vc...)
+				r.clockT.tick()
+				e.obj.vc = joinVC(e.obj.vc, r.clockT.vc)
+			}
 			e.fire(r)
 		}
 	}
